@@ -63,7 +63,20 @@ func (m MEnv) ConfigFile() string {
 	if m.CfgTimeConv != "" {
 		fmt.Fprintf(&sb, "time_convention = %s\n", m.CfgTimeConv)
 	}
-	return sb.String()
+	out := sb.String()
+	if out == "" {
+		return out
+	}
+	// equivalent spellings of the same configuration: comment and blank lines, an unrelated setting, CRLF line endings
+	switch (m.Minute + m.Second + m.Today.D) % 4 {
+	case 1:
+		out = "# klog settings\n\n" + out + "\n# end\n"
+	case 2:
+		out = "editor = vi\n" + out
+	case 3:
+		out = strings.ReplaceAll("# written on another system\n"+out+"editor = vi\n", "\n", "\r\n")
+	}
+	return out
 }
 
 func (m MEnv) Clock() time.Time { return obs.ClockAt(m.Today, m.Minute, m.Second) }
